@@ -33,6 +33,12 @@ func main() {
 		runAltValues(*fam, *seed, *tier, *out)
 	case "altreplay":
 		runAltReplay(*fam, *seed, *tier, *vectors, *out, *shards, *only, *mode)
+	case "hostilecorpus":
+		runHostileCorpus(*seed, *out)
+	case "hostile":
+		runHostile(*seed, *tier, *vectors, *out, *shards, *only)
+	case "hostile-worker":
+		runHostileWorker(*seed)
 	case "poolseq":
 		runPoolSeq(*vectors, *out, *shards, *only)
 	case "poolconc":
